@@ -658,9 +658,20 @@ static void iauth_xquery_config_service(const char *name, const char *type)
             }
         }
 
-        /* If there are no empty slots, append it. */
-        if (ii == iauth_xquery_services.used)
+        /* If there are no empty slots, append it -- unless the
+         * per-client bitmasks have no bit left for another slot.
+         */
+        if (ii == iauth_xquery_services.used) {
+            if (ii >= 32) {
+                log_message(iauth_xquery_log, LOG_ERROR,
+                            "Too many services (at most 32 at a time); ignoring %s",
+                            name);
+                xfree(srv);
+                stats.n_srv_allocs--;
+                return;
+            }
             iauth_xquery_services_append(&iauth_xquery_services, srv);
+        }
     }
 
     /* Look up the type of the service. */
